@@ -317,9 +317,17 @@ def find_irrelevant_type(etype: tp.Type, types: List[tp.Type],
 
     if isinstance(etype, tp.TypeParameter):
         if etype.bound is None or etype.bound == factory.get_any_type():
-            return choose_type(types, only_regular=True)
+            # Any type but the top type is irrelevant to such a type variable.
+            return choose_type([t for t in types
+                                if _cls2type(t) != factory.get_any_type()],
+                               only_regular=True)
         else:
             etype = etype.bound
+
+    if etype.is_primitive() and hasattr(etype, 'box_type'):
+        # A primitive type has no supertypes of its own, but its values are
+        # assignable to the supertypes of its boxed type.
+        etype = etype.box_type()
 
     types = [_cls2type(t) for t in types]
     supertypes = find_supertypes(etype, types, include_self=True,
@@ -334,7 +342,10 @@ def find_irrelevant_type(etype: tp.Type, types: List[tp.Type],
         for t in relevant_types
         if isinstance(t, tp.ParameterizedType)
     }
-    available_types = [t for t in types if t not in relevant_types]
+    # The top type is a supertype of every type, even when it is not listed
+    # among the (declared) supertypes, e.g., for classes without a superclass.
+    available_types = [t for t in types if t not in relevant_types and
+                       t != factory.get_any_type()]
     if not available_types:
         return None
     t = utils.random.choice(available_types)
